@@ -12,7 +12,7 @@ RULE = ("netlists of the restricted subset (single module, no comments, one name
         "io, registry, pin nets, graph identity modulo constant-node names, function; non-trivial = >=2 items"
         "; plus: blackbox types whose pins and names (BUF, Nand) vary between netlists parsed by one process")
 BOUND = "<= 4 inputs, <= 7 items, <= 2 blackbox instances; 4/16 hash seeds"
-ODD = ["x_input", "my_output", "assign1", "tie0", "wire_a", "inputx", "outputy", "b0", "b1", "b_0", "opb0", "a", "b", "c", "d", "e", "f", "g", "h", "k", "m"]
+ODD = ["x_input", "my_output", "assign1", "tie0", "tie1", "wire_a", "inputx", "outputy", "b0", "b1", "b_0", "opb0", "a", "b", "c", "d", "e", "f", "g", "h", "k", "m"]
 
 
 def cases(tier, seed):
@@ -57,8 +57,8 @@ def run_case(case):
         bbs = [circ.blackbox(k, i, o) for k, (i, o) in sorted(nl["bbs"].items())]
         allnames = set(nl["inputs"]) | set(nl["outputs"]) | set(nl["wires"])
         tags = []
-        if allnames & {"tie0", "tie1"}:
-            tags.append("[net-named-like-fast-parser-constant]")
+        if (set(nl["outputs"]) | set(nl["wires"])) & {"tie0", "tie1"}:
+            tags.append("[net-named-like-fast-parser-constant]")   # D23 is about NON-input nets of that name
         if any(re.search(r"(input|output)$", x) for x in allnames):
             tags.append("[name-ending-in-input-or-output]")
         if re.search(r"\)\s*,\s*\.", text) and not re.search(r"\)\s*,\s+\.", text) or re.search(r"\),\.", text):
